@@ -49,7 +49,6 @@ Definition judge (k : c14case) : N :=
   let g := go_out k m in
   let sp := spec_ok (k_route_ok k) (k_req_ok k) rk ef (k_strict k) (k_hops k) g in
   let same := out_eqb g m in
-  let guard := negb (k_strict k) || negb (k_route_ok k && k_req_ok k) || g_wrote (k_hops k) in
-  if sp then (if same then J_OK else if guard then J_DRIFT else J_NOTE)
-  else if negb guard && same then J_KNOWN 1
+  if sp then (if same then J_OK else J_DRIFT)
+  else if same then J_KNOWN 1   (* cannot happen while C14_middleware_meets_spec holds *)
   else J_VIOL.
